@@ -943,7 +943,14 @@ class Checker:
             n = f["number"]
             if f["name"] in by_name:
                 o = by_name[f["name"]]
-                self.v("duplicate-field-name", self.pair(k, self.fkind(o)),
+                feat = self.pair(k, self.fkind(o))
+                if feat == "sibling-fields" and m["name"].endswith("Key"):
+                    # the <List>Key message of a keyed list: key fields 1..n and one field holding the entry
+                    ent = m["name"][:-3]
+                    is_ent = lambda x: str(x.get("type", "")).split(".")[-1] == ent
+                    if any(is_ent(x) for x in m["fields"]):
+                        feat = "list-key-message:key-field+entry-field" if (is_ent(f) or is_ent(o)) else "list-key-message:two-key-fields"
+                self.v("duplicate-field-name", feat,
                        "message %s has two fields named %s (numbers %d, %d)" % (full, f["name"], o["number"], n),
                        rel, [m["line"], o["line"], f["line"]])
             else:
@@ -1324,6 +1331,13 @@ def adv_static_schemas():
         "    leaf-list burst-size { type union { type string; type uint32; } }\n"
         "    leaf-list burst_size { type union { type string; type uint32; } }\n"
         "    leaf plain-a { type string; }\n  }\n")
+    # a keyed list whose name and key leaf name differ only in '-' / '.' / '_': in the <List>Key message the
+    # key field and the entry field must still get different names
+    add("adv-list-key-name-equals-list-name", "lists:key-name-equals-list-name-after-sanitisation", "advk",
+        "  container c {\n"
+        "    list sub-if { key \"sub_if\"; leaf sub_if { type string; } leaf v { type uint8; } }\n"
+        "    list peer_group { key \"peer.group\"; leaf peer.group { type string; } leaf v { type uint8; } }\n"
+        "    list same { key \"same\"; leaf same { type string; } }\n  }\n")
     add("adv-identity-sanitise", "identities:names-equal-after-sanitisation", "advs",
         "  identity SBASE;\n  identity a-b { base SBASE; }\n  identity a.b { base SBASE; }\n  identity c { base SBASE; }\n"
         "  container c { leaf r { type identityref { base SBASE; } } }\n")
